@@ -105,7 +105,7 @@ def gen_history(rng, ctx):
             frames.append(base if c < 0.2 else base - 1 if c < 0.35 else base + 1 if c < 0.5 else
                           base + rng.randrange(0, 1 << 20) if c < 0.8 else rng.choice((0, (1 << 64) - 1, rng.getrandbits(64))))
         n_records = (depth + 3) // 4 + rng.choice((0, 0, 1))
-        nframes = rng.choice((depth, depth, max(0, depth - 1), depth + 2, 4 * n_records))
+        nframes = rng.choice((depth, depth, max(0, depth - 1), depth + 2, 4 * n_records, 0, max(0, depth - 5), rng.randrange(depth + 1)))
         if rng.random() < 0.15:
             nframes = rng.choice(H.HEADER_COUNT_BOUNDARIES)
         what = USTACK | (rng.getrandbits(14) & ~USTACK) if rng.random() < 0.85 else rng.getrandbits(14) & ~USTACK
